@@ -179,7 +179,7 @@ def run_sort(case, st=None):
 # ------------------------------------------------------------------ pickling / copying / text round trips
 def gen_rt(rng):
     t = rterm(rng)
-    return dict(kind="rt", t=enc(t))
+    return dict(kind="rt", t=enc(t), vseed=rng.randrange(2))
 
 
 def normalised(t):
@@ -209,6 +209,21 @@ def run_rt(case, st=None):
             return (name.rstrip("0123456789") + "-changed", "%s of %s gives %s" % (name, S(t), S(t2)))
         if isinstance(t, Literal) and (t2.datatype != t.datatype or t2.language != t.language or str(t2) != str(t)):
             return (name.rstrip("0123456789") + "-changed", "%s of %s changes lexical/datatype/language" % (name, S(t)))
+    # one pickler object serves a whole store: terms that differ only in kind, datatype or language must not be confused by it
+    text = str(t)
+    variants = [t, Literal(text), Literal(text, lang="en"), Literal(text, lang="fr"), Literal(text, datatype=URIRef("http://www.w3.org/2001/XMLSchema#string")),
+                Literal(text, datatype=URIRef("http://example.org/dt"), normalize=False), URIRef(text), BNode(text)]
+    if case.get("vseed", 0) % 2: variants.reverse()
+    try:
+        shared = NodePickler()
+        blobs = [shared.dumps(v) for v in variants]
+        back = [shared.loads(b) for b in blobs]
+    except Exception as ex:
+        return ("NodePickler-raises", "one NodePickler over the near-equal variants of %s raised %s: %s" % (S(t), type(ex).__name__, ex))
+    st["NodePickler-shared"] = st.get("NodePickler-shared", 0) + 1
+    for v, b in zip(variants, back):
+        if type(b) is not type(v) or lkey(b) != lkey(v):
+            return ("NodePickler-shared-changed", "one NodePickler object, after pickling %s, loads %s back as %s" % ([S(x) for x in variants[:variants.index(v)]][-2:], S(v), S(b)))
     if isinstance(t, Variable):
         st["_nontrivial"] = 0
         return None
